@@ -177,6 +177,43 @@ Proof.
   apply is_loop_sent_sound in H. congruence.
 Qed.
 
+Lemma is_loop_headed_lib id e s : walkable e = true ->
+  is_loop true (ELib id e) (ESent s) = res_of_bool (occurs_sent s e).
+Proof.
+  intros Hw. cbn [is_loop go_eq].
+  rewrite lib_is_sent, (lib_walk_sent e s Hw), (walkable_nonnil e Hw).
+  destruct (occurs_sent s e) eqn:O; cbn [res_of_bool res_or_else]; [reflexivity|].
+  destruct (is_loop_sent_walkable_total e s Hw) as [H|H]; [|exact H].
+  apply is_loop_sent_sound in H. congruence.
+Qed.
+
+Lemma is_loop_headed_retry id lid e h s : walkable e = true ->
+  is_loop true (EWithRetry id lid e h) (ESent s) = res_of_bool (occurs_sent s e).
+Proof.
+  intros Hw. cbn [is_loop go_eq].
+  rewrite lib_is_sent, (lib_walk_sent e s Hw), (walkable_nonnil e Hw).
+  destruct (occurs_sent s e) eqn:O; cbn [res_of_bool res_or_else]; [reflexivity|].
+  destruct (is_loop_sent_walkable_total e s Hw) as [H|H]; [|exact H].
+  apply is_loop_sent_sound in H. congruence.
+Qed.
+
+Lemma ext_chain_nonnil e : ext_chain e = true -> is_nil e = false.
+Proof. destruct e; cbn; intros H; try discriminate; reflexivity. Qed.
+
+(* both previous results in one: wrappers without an Is method on top, then a library wrapper with
+   anything walkable below it *)
+Theorem is_ext_chain e s : ext_chain e = true -> errors_is e (ESent s) = res_of_bool (occurs_sent s e).
+Proof.
+  intros He. unfold errors_is. rewrite (ext_chain_nonnil e He). cbn [is_nil orb comparable].
+  induction e; cbn [ext_chain] in He; try discriminate.
+  - cbn [is_loop go_eq occurs_sent]. rewrite sentinel_eqb_sym. destruct (sentinel_eqb s s0); reflexivity.
+  - cbn [occurs_sent]. apply is_loop_headed_lib. exact He.
+  - cbn [is_loop go_eq occurs_sent]. rewrite (ext_chain_nonnil e He). apply IHe. exact He.
+  - cbn [is_loop go_eq occurs_sent]. rewrite (ext_chain_nonnil e He). apply IHe. exact He.
+  - cbn [occurs_sent]. apply is_loop_headed_retry. exact He.
+  - cbn [is_loop go_eq occurs_sent]. rewrite (ext_chain_nonnil e He). apply IHe. exact He.
+Qed.
+
 (* ---------- any comparable target: identity of a node of the chain ---------- *)
 Definition same_value (t n : err) : bool := match go_eq n t with CTrue => true | _ => false end.
 
@@ -361,7 +398,7 @@ Lemma good_call id ck c l : call_ok ck = true ->
   good (call_error id ck c) l.
 Proof.
   intros Hok Hc Hs.
-  destruct ck as [k f| | |rt f|k|k|retry q| |code| | |n]; cbn [call_error].
+  destruct ck as [k f| | |rt f|k|k|retry q| |code| | |n|n]; cbn [call_error].
   - (* CkReq *)
     destruct k, f; cbn [call_ok] in Hok; try discriminate;
       cbn [uses_cause call_sentinel] in *;
@@ -395,6 +432,12 @@ Proof.
     destruct (n =? 1); [apply good_wrap, good_sent|].
     destruct (n =? 2); [apply good_wrap, good_sent|].
     destruct (n =? 3); apply good_wrap, good_sent.
+  - (* CkKeepAlive *)
+    cbn [call_ok uses_cause call_sentinel] in *.
+    destruct (n =? 0) eqn:N0; cbn [negb] in *.
+    + specialize (Hs eq_refl). subst l. apply good_wrap, good_sent.
+    + specialize (Hc eq_refl). destruct (n =? 1); [apply good_wrap; exact Hc|].
+      unfold ping_impl. cbn -[wrap_error]. apply good_wrap. exact Hc.
 Qed.
 
 Lemma good_build d : shaped d = true -> good (build d) (spec_leaf d).
@@ -459,10 +502,11 @@ Theorem ctx_error_found id ck ce : ctx_call ck = true ->
 Proof.
   intros H. rewrite (errors_is_good _ (Some ce)).
   - cbn. rewrite sentinel_eqb_refl. reflexivity.
-  - destruct ck as [k f| | |rt f|k|k|retry q| |code| | |n]; cbn [ctx_call] in H; try discriminate.
+  - destruct ck as [k f| | |rt f|k|k|retry q| |code| | |n|n]; cbn [ctx_call] in H; try discriminate.
     + apply andb_true_iff in H as [H1 H2]. apply good_call; [exact H1 | intros _; apply good_sent |].
       destruct f; cbn in H2 |- *; discriminate.
     + destruct f; try discriminate. apply good_call; [reflexivity | intros _; apply good_sent | cbn; discriminate].
+    + apply N.eqb_eq in H. subst n. apply good_call; [reflexivity | intros _; apply good_sent | cbn; discriminate].
 Qed.
 
 (* ---------- the retry handle: the closures refine the retransmission protocol ---------- *)
